@@ -266,6 +266,20 @@ def check_roundtrip(ctx, obj, sigs, ks, ids, meta, comp, desc, path):
 				continue
 			break
 		ctx.count('index_lists_checked', len(idxs))
+		# slices of the loaded collection with every small step, forwards and backwards, over aligned and misaligned ranges
+		for _ in range(6):
+			a_ = rr.choice([None] + list(range(-n - 1, n + 2))); b_ = rr.choice([None] + list(range(-n - 1, n + 2))); st_ = rr.choice([1, 2, 3, 4, -1, -2, -3, -4])
+			sl_ = slice(a_, b_, st_)
+			exp_ = sigs[sl_]
+			try:
+				sub_ = h[sl_]
+				got_ = [sub_[j] for j in range(len(sub_))]
+			except Exception as e:
+				ctx.violation('read-back-raises', f'h[{sl_}] raised {type(e).__name__}: {e}', desc); break
+			ctx.evals += 1
+			ctx.count('strided_slices_of_loaded_file')
+			if len(got_) != len(exp_) or not all(np.array_equal(x_, y_) for x_, y_ in zip(got_, exp_)):
+				ctx.violation('signature-slice', f'h[{a_}:{b_}:{st_}] of the loaded file holds {[x_.tolist()[:3] for x_ in got_][:4]}, the written signatures at those positions are {[y_.tolist()[:3] for y_ in exp_][:4]}', desc); break
 		# a chunk read earlier must keep its content after later chunks were read ("read chunks first, compare later")
 		if n >= 2:
 			cuts = sorted({0, n // 3, (2 * n) // 3, n})
